@@ -2198,6 +2198,17 @@ func c06WriteList(b *strings.Builder, head string, items []string) {
 // extractCensusC06 writes <gendir>/Census.lean and prints the differences to the reviewed expectations of
 // FactsAgree/C06.lean (order, float and clock sites) and FactsAgree/C06Conc.lean (goroutines, channels, locks)
 func extractCensusC06(repo, gendir string) {
+	// a failure of the census must not take the other properties' facts down with it: it leaves a census that matches no expectation
+	defer func() {
+		if r := recover(); r != nil {
+			msg := strings.NewReplacer("\"", "'", "\\", "/", "\n", " ").Replace(fmt.Sprint(r))
+			stub := "/- GENERATED by `harness extract`: the census FAILED -/\nnamespace Knut.Generated.Census\nabbrev Site := String × String × String × String × String\n" +
+				"def files : List (String × Nat) := [(\"census extraction failed: " + msg + "\", 0)]\ndef concFiles : List (String × Nat) := files\ndef classD : List Site := []\ndef translated : List (String × String) := []\nend Knut.Generated.Census\n"
+			_ = os.WriteFile(filepath.Join(gendir, "Census.lean"), []byte(stub), 0o644)
+			fmt.Printf("census-new-site C06 (census extraction failed): %s\n", msg)
+			fmt.Printf("census-new-site C06Conc (census extraction failed): %s\n", msg)
+		}
+	}()
 	c := &c06Census{l: c06NewLoader(repo), funcs: map[*types.Func]*c06Func{}, gendir: gendir, translated: map[string]bool{}}
 	c.loadAll()
 	c.loadTrans()
